@@ -14,6 +14,17 @@ type userPanic struct{ tag string }
 // ---------------------------------------------------------------------------
 // Plain data types.
 
+// escNames has member names that the escape options rewrite: the same type
+// is marshaled under different escape settings (anything remembered per type
+// must be remembered per option set).
+type escNames struct {
+	A int `json:"a<b"`
+	B int `json:"x&y"`
+	C int "json:\"l\u2028s\""
+	D int "json:\"p\u2029s\""
+	E int `json:"plain"`
+}
+
 type item struct {
 	ID    int            `json:"id"`
 	Name  string         `json:"name"`
